@@ -14,6 +14,10 @@ func famC12(g *Gen, o *Out, n int, thorough bool) {
 	for c := 0; c < n; c++ {
 		wo := g.wOpts()
 		wo.mcs = 2048
+		if g.pick(4) == 0 {
+			// a small read-side section limit: what a session wrote, the same session options reopen
+			wo.ms = uint64(40 + g.pick(120))
+		}
 		api := []string{"bs", "st"}[g.pick(2)]
 		bs := g.Blocks(6)
 		o.HashBlocks(bs)
